@@ -173,9 +173,14 @@ impl World {
     }
 
     /// A restart: a new runtime on the same storage.
-    pub fn restart(&mut self) -> Result<(), String> {
+    pub fn restart(&mut self, timing: Option<Vec<(String, u32)>>)
+        -> Result<(), String>
+    {
         let dir = self.env.dir.clone();
-        let opts = self.env.opts.clone();
+        let mut opts = self.env.opts.clone();
+        if let Some(timing) = timing {
+            opts.timing_override = timing;
+        }
         let seed = self.env.mem_seed;
         if opts.memory {
             return Ok(())
@@ -262,6 +267,15 @@ impl World {
                 &parent_handle, req, &self.actor, krill
             ).map_err(|e| e.to_string())?
         };
+        // (as server/manager.rs ca_parent_add_or_update does: verify that
+        // the new parent answers before adding it)
+        let contact = krill::api::admin::ParentCaContact
+            ::try_from_rfc8183_parent_response(response.clone())
+            .map_err(|e| e.to_string())?;
+        krill.ca_manager().get_entitlements_from_contact(
+            &child_handle, &parent_handle.convert(), &contact, false,
+            &self.env.slow,
+        ).map_err(|e| e.to_string())?;
         let req = ParentCaReq {
             handle: parent_handle.convert(), response
         };
@@ -402,7 +416,11 @@ impl World {
     /// A hash of the abstract state (to detect a fixed point).
     pub fn signature(&mut self) -> i64 {
         use std::hash::{Hash, Hasher};
-        let abs = self.project_abs();
+        let mut abs = self.project_abs();
+        // (the wall-clock reading is not part of the state)
+        if let Some(m) = abs.as_object_mut() {
+            m.remove("now");
+        }
         let mut h = std::collections::hash_map::DefaultHasher::new();
         abs.to_string().hash(&mut h);
         (h.finish() >> 2) as i64
@@ -1095,11 +1113,98 @@ impl World {
             }
         }
         let pubs = self.project_pub(&full);
+        // The status reports (C19): per CA the outcome of the most recent
+        // exchange with its parent and the entitlements last returned, the
+        // outcome of the most recent exchange with the repository and
+        // whether the list of published objects shown is what the server
+        // holds for the CA, and per child the outcome its parent reports.
+        let outcome = |exchange: &Value| -> &'static str {
+            if exchange.is_null() {
+                "none"
+            }
+            else if exchange["result"].as_str() == Some("Success") {
+                "ok"
+            }
+            else {
+                "fail"
+            }
+        };
+        let mut pst = Map::new();
+        let mut rst = Map::new();
+        let mut kst = Map::new();
+        let mut pubknown = Map::new();
+        let mut statuses: BTreeMap<String, Value> = BTreeMap::new();
+        for name in self.cas.clone() {
+            if full.contains_key(&name) {
+                statuses.insert(name.clone(), self.project_status(&name));
+            }
+        }
+        let repo = self.env.krill.repo_manager();
+        for name in self.cas.clone() {
+            let Some(st) = statuses.get(&name) else { continue };
+            let details = repo.get_publisher_details(
+                ca_handle(&name).convert()
+            ).ok().map(|d| serde_json::to_value(&d).unwrap());
+            pubknown.insert(name.clone(), json!(details.is_some()));
+            let p = parent.get(&name).and_then(|x| x.as_str())
+                .unwrap_or("none").to_string();
+            let ps = &st["parents"][&p];
+            pst.insert(name.clone(), json!({
+                "last": outcome(&ps["last_exchange"]),
+                "ents": atoms_of_json(&ps["all_resources"]),
+                "others": st["parents"].as_object().map(|m| {
+                    m.keys().filter(|k| **k != p).cloned().collect::<Vec<_>>()
+                }).unwrap_or_default(),
+            }));
+            let mut shown: Vec<(String, String)> = st["repo"]["published"]
+                .as_array().cloned().unwrap_or_default().iter().map(|f| {
+                    (f["uri"].as_str().unwrap_or("").to_string(),
+                     f["base64"].as_str().unwrap_or("").to_string())
+                }).collect();
+            shown.sort();
+            let mut held: Vec<(String, String)> = details.as_ref().map(|d| {
+                d["current_files"].as_array().cloned().unwrap_or_default()
+                    .iter().map(|f| {
+                        (f["uri"].as_str().unwrap_or("").to_string(),
+                         f["base64"].as_str().unwrap_or("").to_string())
+                    }).collect()
+            }).unwrap_or_default();
+            held.sort();
+            let mut uris: Vec<&String> = shown.iter().map(|x| &x.0).collect();
+            let total = uris.len();
+            uris.dedup();
+            rst.insert(name.clone(), json!({
+                "last": outcome(&st["repo"]["last_exchange"]),
+                "same": shown == held,
+                "empty": shown.is_empty(),
+                "dups": total - uris.len(),
+                "stale": shown.iter().filter(|x| !held.contains(x)).count(),
+                "missing": held.iter().filter(|x| !shown.contains(x)).count(),
+            }));
+            // what this CA reports about its children
+            if let Some(children) = st["children"].as_object() {
+                for (child, cs) in children {
+                    kst.insert(
+                        child.clone(), json!(outcome(&cs["last_exchange"]))
+                    );
+                }
+            }
+        }
+        // children without an entry at an existing parent
+        for name in self.cas.clone() {
+            let p = parent.get(&name).and_then(|x| x.as_str())
+                .unwrap_or("none").to_string();
+            if statuses.contains_key(&p) && !kst.contains_key(&name) {
+                kst.insert(name.clone(), json!("none"));
+            }
+        }
         json!({
+            "pst": pst, "rst": rst, "kst": kst, "pubknown": pubknown,
             "exists": exists, "parent": parent, "ent": ent, "cstate": cstate,
             "iss": iss, "sus": sus, "rc": rc, "rcv": rcv, "req": req,
             "routes": routes, "pub": pubs, "tasks": tasks,
             "keys": self.last_keys.clone(),
+            "now": chrono::Utc::now().timestamp(),
             "other_tasks": other_tasks, "odd": odd,
         })
     }
@@ -1223,6 +1328,7 @@ impl World {
                                 );
                                 let facts
                                     = keyfacts.entry(kname).or_default();
+                                facts.roas.insert(id.clone());
                                 facts.objs.insert(id);
                                 facts.files.insert(fname.clone());
                             }
@@ -1308,6 +1414,33 @@ impl World {
                 "stray": stray,
             }));
         }
+        // the manifest numbers in the CAs' own object stores
+        let mut store_numbers: HashMap<String, i64> = HashMap::new();
+        if let Ok(store) = krill.storage().open(
+            krill::constants::CA_OBJECTS_NS
+        ) {
+            for name in self.cas.clone() {
+                let Ok(key) = Ident::boxed_from_string(format!("{name}.json"))
+                else { continue };
+                let Ok(Some(objects)) = store.get::<Value>(None, &key)
+                else { continue };
+                let Some(classes) = objects["classes"].as_object()
+                else { continue };
+                for class in classes.values() {
+                    for field in ["current_set", "staging_set", "old_set"] {
+                        let set = &class["keys"][field];
+                        let Some(cert_name)
+                            = set["signing_cert"]["name"].as_str()
+                        else { continue };
+                        let key_id = cert_name.trim_end_matches(".cer");
+                        let kname = self.key_name(key_id);
+                        if let Some(n) = set["revision"]["number"].as_i64() {
+                            store_numbers.insert(kname, n);
+                        }
+                    }
+                }
+            }
+        }
         // which of the objects ever seen under a key are on its CRL
         let mut keys = Map::new();
         for (kname, facts) in keyfacts {
@@ -1328,11 +1461,12 @@ impl World {
                 !facts.files.contains(*f) && !f.ends_with(".crl")
             }).cloned().collect();
             missing.sort();
-            keys.insert(kname, json!({
+            keys.insert(kname.clone(), json!({
                 "ca": facts.ca, "mft": facts.mft.unwrap_or(-1),
+                "store": store_numbers.get(&kname).copied().unwrap_or(-1),
                 "crl": facts.crl_number.unwrap_or(-1),
                 "mft_this": facts.mft_this, "mft_next": facts.mft_next,
-                "objs": facts.objs, "revoked": revoked,
+                "objs": facts.objs, "roas": facts.roas, "revoked": revoked,
                 "unlisted": unlisted, "missing": missing,
             }));
         }
@@ -1350,6 +1484,7 @@ struct KeyFacts {
     crl_number: Option<i64>,
     crl: Option<rpki::repository::crl::Crl>,
     objs: BTreeSet<String>,
+    roas: BTreeSet<String>,
     files: BTreeSet<String>,
     listed: BTreeSet<String>,
 }
@@ -1537,6 +1672,38 @@ pub fn apply_action(w: &mut World, action: &Value) -> Result<Value, String> {
             ).map_err(|e| e.to_string())?;
             Ok(serde_json::to_value(ca.as_ref()).unwrap())
         }
+        "PubRemove" => {
+            // the publication server's operator removes the publisher
+            let krill = &w.env.krill;
+            krill.repo_manager().remove_publisher(
+                ca_handle(str_arg(action, "c")).convert(), &w.actor, krill
+            ).map_err(|e| e.to_string())?;
+            Ok(json!("ok"))
+        }
+        "PubAdd" => {
+            // ... and adds it again with the CA's (unchanged) identity
+            let krill = &w.env.krill;
+            let handle = ca_handle(str_arg(action, "c"));
+            let pub_req = {
+                let ca = krill.ca_manager().get_ca(&handle).map_err(|e| {
+                    e.to_string()
+                })?;
+                PublisherRequest::new(
+                    ca.id_cert().base64.clone(), handle.convert(), None,
+                )
+            };
+            krill.repo_manager().create_publisher(
+                pub_req, &w.actor
+            ).map_err(|e| e.to_string())?;
+            Ok(json!("ok"))
+        }
+        "RepoSyncAll" => {
+            // "bulk sync": all CAs synchronise with their repository
+            w.env.krill.ca_manager().cas_schedule_repo_sync_all(
+                &w.env.krill
+            ).map_err(|e| e.to_string())?;
+            Ok(json!("ok"))
+        }
         "Refresh" => {
             // the periodic refresh / "bulk refresh": all CAs sync with
             // their parents
@@ -1545,9 +1712,17 @@ pub fn apply_action(w: &mut World, action: &Value) -> Result<Value, String> {
             ).map_err(|e| e.to_string())?;
             Ok(json!("ok"))
         }
-        "Settled" | "NotSettled" => Ok(json!("ok")),
-        "Restart" => {
-            w.restart()?;
+        "Settled" | "NotSettled" | "Mark" | "ExpectSame" | "ExpectReissued"
+        | "ExpectRenewed" => Ok(json!("ok")),
+        "Restart" | "RestartDue" | "RestartNormal" => {
+            // a restart, possibly with other timing values: margins larger
+            // than the lifetimes make everything due at the next
+            // maintenance run, which stands in for the passing of time
+            let timing = action.get("timing").and_then(|t| t.as_object())
+                .map(|m| m.iter().filter_map(|(k, v)| {
+                    v.as_u64().map(|v| (k.clone(), v as u32))
+                }).collect::<Vec<_>>());
+            w.restart(timing)?;
             Ok(json!("ok"))
         }
         other => Err(format!("unknown action {other}")),
@@ -1569,9 +1744,19 @@ pub fn run(behaviours: &Path, out: &Path, workdir: &Path, memory: bool) {
                 .unwrap_or(90) as usize,
             extra_toml: beh.get("toml").and_then(|x| x.as_str())
                 .unwrap_or("").to_string(),
+            timing_override: beh.get("timing").and_then(|t| t.as_object())
+                .map(|m| m.iter().filter_map(|(k, v)| {
+                    v.as_u64().map(|v| (k.clone(), v as u32))
+                }).collect()).unwrap_or_default(),
         };
         refill_keys(idx * 37);
-        trace.push(&json!({"ev": "reset", "behaviour": id}));
+        trace.push(&json!({
+            "ev": "reset", "behaviour": id,
+            "mftdue": beh.get("mftdue").and_then(|x| x.as_bool())
+                .unwrap_or(false),
+            "objdue": beh.get("objdue").and_then(|x| x.as_bool())
+                .unwrap_or(false),
+        }));
         let mut world = match guarded(|| World::create(workdir, opts)) {
             Outcome::Ok(Ok(w)) => w,
             Outcome::Ok(Err(e)) => {
@@ -1614,6 +1799,11 @@ pub fn run(behaviours: &Path, out: &Path, workdir: &Path, memory: bool) {
         let mut queue: std::collections::VecDeque<Value>
             = actions.iter().cloned().collect();
         let mut budget = 2000;
+        // between RestartDue and RestartNormal everything is due: every
+        // command re-issues manifests as a side effect and krill schedules
+        // repository synchronisations for that; a DueTouch event after each
+        // event lets the trace specification take those tasks over
+        let mut due_phase = false;
         while let Some(action) = queue.pop_front() {
             budget -= 1;
             if budget == 0 {
@@ -1710,6 +1900,18 @@ pub fn run(behaviours: &Path, out: &Path, workdir: &Path, memory: bool) {
                 Outcome::Panic(m) | Outcome::Crash(m) => json!({"panic": m}),
             };
             trace.push(&line);
+            if a == "RestartDue" {
+                due_phase = true;
+            }
+            else if a == "RestartNormal" || a == "Restart" {
+                due_phase = false;
+            }
+            else if due_phase {
+                trace.push(&json!({
+                    "ev": "DueTouch", "a": "DueTouch", "status": "ok",
+                    "abs": line["abs"].clone(), "rp": line["rp"].clone(),
+                }));
+            }
         }
     }
     trace.finish();
